@@ -38,8 +38,12 @@ def is_jwk(value: Dict[str, Any]) -> None:
         raise ValueError("must be a JWK")
 
 
-def in_choices(choices: list[str]) -> Callable[[Union[str, list[str]]], None]:
+def in_choices(choices: list[str], is_list: bool | None = None) -> Callable[[Union[str, list[str]]], None]:
     def _is_one_of(value: str | list[str]) -> None:
+        # is_list=True: the value must be a list of choices ("key_ops"),
+        # is_list=False: a single choice ("use"), None: either form
+        if is_list is not None and isinstance(value, list) is not is_list:
+            raise ValueError(f"must be {'a list' if is_list else 'one'} of {choices}")
         if isinstance(value, list):
             if not all(v in choices for v in value):
                 raise ValueError(f"must be one of {choices}")
@@ -135,7 +139,7 @@ JWE_HEADER_REGISTRY = {
 #: Basic JWK parameter registry
 JWK_PARAMETER_REGISTRY = {
     "kty": KeyParameter("Key Type", is_str, required=True),  # This member MUST be present in a JWK.
-    "use": KeyParameter("Public Key Use", in_choices(["sig", "enc"])),
+    "use": KeyParameter("Public Key Use", in_choices(["sig", "enc"], False)),
     "key_ops": KeyParameter(
         "Key Operations",
         in_choices([
@@ -147,7 +151,7 @@ JWK_PARAMETER_REGISTRY = {
             "unwrapKey",
             "deriveKey",
             "deriveBits",
-        ]),
+        ], True),
     ),
     "alg": KeyParameter("Algorithm", is_str),
     "kid": KeyParameter("Key ID", is_str),
